@@ -66,12 +66,16 @@ func (h *Handler) HandleMessage(msg stanza.Message, r xmlstream.TokenReadEncoder
 	if err != nil {
 		return err
 	}
-	start := tok.(xml.StartElement)
+	// The first child is normally the <result/> payload, but a peer may send
+	// anything there (eg. whitespace); such messages are not part of a tracked
+	// query.
 	var queryID string
-	for _, attr := range start.Attr {
-		if attr.Name.Local == "queryid" {
-			queryID = attr.Value
-			break
+	if start, ok := tok.(xml.StartElement); ok {
+		for _, attr := range start.Attr {
+			if attr.Name.Local == "queryid" {
+				queryID = attr.Value
+				break
+			}
 		}
 	}
 	h.trackedM.Lock()
